@@ -57,7 +57,7 @@ pub fn families(tier: &str) -> Vec<(Arc<dyn Family>, Option<Vec<(String, usize)>
     let thorough = tier == "thorough";
     let (f, labels) = ladder_family(if thorough { None } else { Some(12) }, false);
     let body = if thorough { 40 } else { 16 };
-    vec![(f, Some(labels)), (family_a_v9(body), None), (family_a_ipfix(body), None), (family_e(false), None), (family_e(true), None)]
+    vec![(f, Some(labels)), (family_a_v9(body), None), (family_a_ipfix(body), None), (family_e(false), None), (family_e(true), None), (family_a2(false, 8), None), (family_a2(true, 8), None)]
 }
 
 fn per_eval_laws(m: &[u64]) -> Vec<(&'static str, String)> {
